@@ -133,3 +133,141 @@ Example c19_example_entropy_guarded :
   entropy_with lg p [NaN; NaN; NaN] = NaN.
 Proof. split; [repeat constructor|]. vm_compute. split; reflexivity. Qed.
 Print Assumptions c19_example_entropy_guarded.
+
+(* ====================================================================================== round 2
+   Allocations that do not initialise memory (np.empty, np.empty_like, np.ndarray(shape)), result
+   caches, and call histories.  Gen/AllocSites.v is regenerated from /repo on every run by the
+   second scan of translator/sites.py; an allocation whose completion is not recognised, or any
+   result-cache idiom (lru_cache, id() keys, memo containers, stray `global`), makes the translator
+   reject naming the place, hence this file fails. *)
+From EV Require Import Alloc AllocProofs AllocSites.
+
+(* clause "no routine reads memory it has not initialised", for EVERY allocation without
+   initialisation in the tree: the buffer as it is after the stores the translator recognised
+   (fill / full assignment / enumerate loop / cursor loop closed by its assertion / receive buffer
+   of a collective) is the same for all heap contents.  (`all_alloc_sites_statement` is the
+   conjunction, generated per site, of
+      forall A stored-values junk1 junk2, length junk1 = n -> length junk2 = n ->
+        site .. junk1 = site .. junk2.) *)
+Theorem c19_every_uninitialised_allocation_heap_independent : all_alloc_sites_statement.
+Proof. exact all_alloc_sites_heap_independent. Qed.
+Print Assumptions c19_every_uninitialised_allocation_heap_independent.
+
+(* the generic lemma behind every site: stores covering every cell make the allocator's contents
+   irrelevant (write-before-read) *)
+Theorem c19_write_before_read : forall (A : Type) (prog : list (wr A)) n (junk1 junk2 : list A),
+  length junk1 = n -> length junk2 = n -> all_written prog n = true ->
+  run prog junk1 = run prog junk2.
+Proof. exact write_before_read. Qed.
+Print Assumptions c19_write_before_read.
+
+(* exact characterisation: the buffer after the stores is independent of the heap iff every cell
+   has been stored to *)
+Theorem c19_write_before_read_iff : forall (A : Type) (b0 b1 : A) (prog : list (wr A)) n,
+  b0 <> b1 ->
+  ((forall junk1 junk2, length junk1 = n -> length junk2 = n -> run prog junk1 = run prog junk2)
+   <-> all_written prog n = true).
+Proof. exact write_before_read_iff. Qed.
+Print Assumptions c19_write_before_read_iff.
+
+(* a cell nothing was stored to still holds what the allocator handed out *)
+Theorem c19_unwritten_cell_is_junk : forall (A : Type) (prog : list (wr A)) (junk : list A),
+  keeps (written prog (length junk)) junk (run prog junk).
+Proof. exact unwritten_cell_is_junk. Qed.
+Print Assumptions c19_unwritten_cell_is_junk.
+
+(* a store pattern that leaves a cell out does depend on the heap: witness *)
+Theorem c19_partial_store_refuted : forall (A : Type) (b0 b1 v : A), b0 <> b1 ->
+  exists (prog : list (wr A)) n junk1 junk2,
+    length junk1 = n /\ length junk2 = n /\ all_written prog n = false /\ run prog junk1 <> run prog junk2.
+Proof. exact partial_store_refuted. Qed.
+Print Assumptions c19_partial_store_refuted.
+
+(* the recognised completion patterns cover every cell, for buffers of every size *)
+Theorem c19_fill_covers : forall (A : Type) (v : A) n, all_written [WFill v] n = true.
+Proof. exact fill_covers. Qed.
+Print Assumptions c19_fill_covers.
+
+Theorem c19_full_assignment_covers : forall (A : Type) (src : list A),
+  all_written [WAll src] (length src) = true.
+Proof. exact full_assign_covers. Qed.
+Print Assumptions c19_full_assignment_covers.
+
+Theorem c19_enumerate_loop_covers : forall (A : Type) (vals : list A),
+  all_written (enum_prog vals) (length vals) = true.
+Proof. exact enum_covers. Qed.
+Print Assumptions c19_enumerate_loop_covers.
+
+(* start = 0; for ..: end = start + len(seg); a[start:end] = seg; start = end; assert end == len(a) *)
+Theorem c19_cursor_loop_covers : forall (A : Type) (segs : list (list A)),
+  all_written (tile_prog 0 segs) (length (concat segs)) = true.
+Proof. exact tile_covers. Qed.
+Print Assumptions c19_cursor_loop_covers.
+
+(* ... and what load_npy_as_striped returns is the concatenation of the pieces it stored *)
+Theorem c19_cursor_loop_result : forall (A : Type) (segs : list (list A)) (junk : list A),
+  length junk = length (concat segs) -> run (tile_prog 0 segs) junk = concat segs.
+Proof. exact tile_result. Qed.
+Print Assumptions c19_cursor_loop_result.
+
+(* clause "repeating the call / what the process computed beforehand never changes the result":
+   without a result cache the value returned is a function of the argument's contents, whatever
+   calls came before *)
+Theorem c19_no_cache_history_independent : forall (A R : Type) (f : list A -> R) memo (h : list (obj A)) o,
+  fst (call_plain f (after_history (call_plain f) memo h) o) = f (contents o).
+Proof. exact plain_history_independent. Qed.
+Print Assumptions c19_no_cache_history_independent.
+
+(* a result cache keyed on object identity (or on a path) violates the clause: same object, same
+   contents, two histories, two results *)
+Theorem c19_identity_cache_history_dependent_refuted : forall (A R : Type) (f : list A -> R) ident a b,
+  f a <> f b ->
+  fst (call_id_cached f (after_history (call_id_cached f) [] [Obj ident a]) (Obj ident b))
+  <> fst (call_id_cached f (after_history (call_id_cached f) [] []) (Obj ident b)).
+Proof. exact id_cache_history_dependent. Qed.
+Print Assumptions c19_identity_cache_history_dependent_refuted.
+
+(* the in-place-overwrite probe of the harness is decisive for such a cache: its two values are
+   f(old contents) and f(new contents), different whenever the routine distinguishes the two;
+   on a cache-free routine the probe's two values coincide *)
+Theorem c19_overwrite_probe_detects_identity_cache : forall (A R : Type) (f : list A -> R) ident fresh a b,
+  ident <> fresh -> f a <> f b ->
+  probe_overwrite (call_id_cached f) [] ident fresh a b = (f a, f b) /\
+  fst (probe_overwrite (call_id_cached f) [] ident fresh a b)
+    <> snd (probe_overwrite (call_id_cached f) [] ident fresh a b).
+Proof. exact id_cache_stale. Qed.
+Print Assumptions c19_overwrite_probe_detects_identity_cache.
+
+Theorem c19_overwrite_probe_agrees_without_cache : forall (A R : Type) (f : list A -> R) memo ident fresh a b,
+  probe_overwrite (call_plain f) memo ident fresh a b = (f b, f b).
+Proof. exact plain_probe_agrees. Qed.
+Print Assumptions c19_overwrite_probe_agrees_without_cache.
+
+(* a cache keyed on the CONTENTS is invisible (so the property does not forbid memoisation as such) *)
+Theorem c19_content_cache_history_independent :
+  forall (A R : Type) (eqb : list A -> list A -> bool) (f : list A -> R) (h : list (obj A)) o,
+  (forall x y, eqb x y = true -> x = y) ->
+  fst (call_content_cached eqb f (after_history (call_content_cached eqb f) [] h) o) = f (contents o).
+Proof. exact content_cache_history_independent. Qed.
+Print Assumptions c19_content_cache_history_independent.
+
+(* non-vacuity: a cursor loop over three pieces fills a junk buffer of 5 cells; leaving the middle
+   piece out does not; an identity-keyed cache returns the stale sum after an overwrite *)
+Example c19_example_write_before_read :
+  run (tile_prog 0 [[1; 2]; []; [3; 4; 5]]) [9; 9; 9; 9; 9] = [1; 2; 3; 4; 5] /\
+  all_written (tile_prog 0 [[1; 2]; []; [3; 4; 5]]) 5 = true /\
+  run [WSlice 0 [1; 2]; WSlice 3 [4; 5]] [9; 9; 9; 9; 9] = [1; 2; 9; 4; 5] /\
+  all_written [WSlice 0 [1; 2]; WSlice 3 [4; 5]] 5 = false /\
+  run (enum_prog [7; 8; 6]) [0; 0; 0] = [7; 8; 6] /\
+  run [WFill 4] [9; 9; 9] = [4; 4; 4] /\
+  n_alloc_sites = length alloc_site_lines /\ n_cache_idioms = 0.
+Proof. vm_compute. repeat split; reflexivity. Qed.
+Print Assumptions c19_example_write_before_read.
+
+Example c19_example_identity_cache :
+  let f := fun l : list nat => fold_right Nat.add 0 l in
+  probe_overwrite (call_id_cached f) [] 7 8 [1; 2] [10; 20] = (3, 30) /\
+  probe_overwrite (call_plain f) [] 7 8 [1; 2] [10; 20] = (30, 30) /\
+  probe_overwrite (call_content_cached (fun x y => if list_eq_dec Nat.eq_dec x y then true else false) f) [] 7 8 [1; 2] [10; 20] = (30, 30).
+Proof. vm_compute. repeat split; reflexivity. Qed.
+Print Assumptions c19_example_identity_cache.
